@@ -43,6 +43,18 @@ CHECKS = {
    text="Real NewMonitor/monitor.run against a fake subscription; the environment performs K actions from {subscription ready, event of symbolic type and object, close subscription, close monitor} in every order while handler callbacks may be arbitrarily slow (a scheduling point inside every callback); all interleavings explored. z3/the engine show: OnInitialize at most once, first, with the cache content; exactly one callback per received event matching type and object in order; callbacks never overlap; none after Done; none if never ready.",
    note="Bounds: quick K<=4, thorough K<=5 actions; events <=K. Typed monitors are covered under C20.",
    ref="DESIGN.md §4 C16"),
+ "C03": dict(
+   text="The real controller.run and the real cache actor run between a fake lister, a recording subscription and a fake watcher whose event channel the environment feeds with ARBITRARY symbolic events (any type, key, version), which over-approximates every watch fault (never connects, drops, duplicates, replays, reordering). The environment performs K actions {list completes, watch event, list completes while a watch event is in flight}; all interleavings explored. From a snapshot taken inside watcher.reset (i.e. right after the sync) z3 shows: every cached key was listed, every listed accepted object is present and never older than listed, the exact reference result when nothing was in flight, one reset per list with the list's version, nothing published for the initial list, and that replaying the published events from the content at readiness always equals the cache.",
+   note="Bounds: quick K<=3 actions with lists of <=1 object and K<=2 with lists of <=2 objects; thorough K<=4/L<=1 and K<=3/L<=2. Watch events before the first list are excluded (the real watcher has no session before its first reset). The liveness half (relists keep coming) is C13; the composition is argued in DESIGN.md.",
+   ref="DESIGN.md §4 C03"),
+ "C13": dict(
+   text="The real lister and ticker run against the engine's timer model with a SYMBOLIC logical clock: the configured period and every jittered period are arbitrary 64-bit values, timer fires are environment transitions, the fake List blocks until released or cancelled. All interleavings of up to CYCLES list/consume cycles and FIRES timer fires are explored; z3 shows each List call starts no earlier than one period after the clock value read before the previous result was consumed, calls never overlap, no reachable state is stuck while a list is awaited, and after closing the stop channel at any point the lister is Done with every library goroutine gone.",
+   note="Bounds: quick <=2 cycles and <=3 fires, thorough <=3 cycles and <=4 fires. ticker.nextPeriod (float64 arithmetic on a random number: unknown at 120 s in z3/z3-5.1/cvc5) is replaced by an arbitrary duration >= the configured period, so the +-10% numeric range is outside the claim. 'Eventually' is absence of stuck states within the bound.",
+   ref="DESIGN.md §4 C13"),
+ "C14": dict(
+   text="Real controller.run with the k-th list result (k<=3) being a client error, a non-list object, a list whose items are not API objects, or an object without list accessor; the engine explores all interleavings and shows the controller is Done, Error() is non-nil and (for a client error) its cause chain ends in the injected error, the cache is shut down, no further list is applied, nothing is ready when k=1, every library goroutine has exited; a deliberate Close() reports no error. Watch faults never terminate the controller (C03/C04 harnesses assert it for every fault sequence they explore).",
+   note="Bounds: k<=3 (thorough 4). meta.ExtractList is modelled (reflection), meta.ListAccessor runs for real. The subscriber tree below a real Builder.Create() composition is covered by C11/C12.",
+   ref="DESIGN.md §4 C14"),
 }
 NOT_APPLICABLE = {}
 PENDING = "check under construction in this session: harness not yet registered (no claim is made)"
